@@ -569,9 +569,12 @@ def synthesize(update_working_block=True, merge_io_vectors=True, block=None):
 
         # Now that we have all the wires built and mapped, walk all the blocks
         # and map the logic to the equivalent set of primitives in the system
-        out_mems = block_out.mem_map  # dictionary: PreSynth Map -> PostSynth Map
+        out_mems = {}  # dictionary: block_in memory -> PostSynth memory
         for net in block_in.logic:
             _decompose(net, wirevector_map, out_mems, block_out)
+        # block_in is an internal copy, so compose with its mem_map in order to
+        # key the map returned to the user by the memories of the original block.
+        block_out.mem_map = {orig: out_mems[temp] for orig, temp in block_in.mem_map.items()}
 
     if update_working_block:
         set_working_block(block_out, no_sanity_check=True)
